@@ -196,6 +196,9 @@ func (securityAssociation *SecurityAssociation) Unmarshal(b []byte) error {
 			transform.TransformType = transformData[4]
 			transform.TransformID = binary.BigEndian.Uint16(transformData[6:8])
 			if transformLength > 8 {
+				if transformLength < 12 {
+					return errors.Errorf("Transform: Illegal length %d, no room for an attribute header", transformLength)
+				}
 				transform.AttributePresent = true
 				transform.AttributeFormat = ((transformData[8] & 0x80) >> 7)
 				transform.AttributeType = binary.BigEndian.Uint16(transformData[8:10]) & 0x7fff
@@ -203,7 +206,7 @@ func (securityAssociation *SecurityAssociation) Unmarshal(b []byte) error {
 				if transform.AttributeFormat == 0 {
 					attributeLength := binary.BigEndian.Uint16(transformData[10:12])
 					// bounds checking
-					if (12 + attributeLength) != transformLength {
+					if (12 + int(attributeLength)) != int(transformLength) {
 						return errors.Errorf("Illegal attribute length %d not satisfies the transform length %d",
 							attributeLength, transformLength)
 					}
